@@ -93,7 +93,26 @@ def table_entry(table, s, T=None):
                 if isinstance(e, str):
                     e = e + " [inherited from the reviewed callers %s: the code was moved into this helper]" % ", ".join(
                         c.split("::")[-1] for c in sorted(callers))
+    if isinstance(e, str):
+        # a review that depends on where the site is: `[inside-loop:lines] ..` holds only while the site lies inside a loop that
+        # advances an iterator made by `lines` (an origin-based key would follow the expression out of the loop)
+        m = re.match(r"^\[inside-loop:(\w+)\]", e)
+        if m and not _inside_loop_over(s, m.group(1), T):
+            return None
     return e
+
+
+def _inside_loop_over(s, name, T):
+    body = s.body
+    loops = [l for l in body.sccs() if s.bb in l]
+    if not loops or T is None:
+        return False
+    O = T.origins(body)
+    for l in loops:
+        for cs in body.calls():
+            if cs.bb in l and cs.name == "next" and any(name + "(" in X.render(a) for a in O.call_args(cs)):
+                return True
+    return False
 
 
 class Sink:
